@@ -4,7 +4,7 @@ import ast
 from ..core import sym
 from ..core.expand import u, call_name, get_arg, bind_args, Expander, is_marker, phi_alternatives
 from ..core.loader import Inconclusive, const_value, parents
-from .common import (dispatch_targets, guarded_values, returns, all_nodes, callee, strip_shape, calls_in, guards_of, stmt_of, kw, find_assignments, compare_nf,
+from .common import (explicit_guards_of, literal_dnf, guard_dnf, dispatch_targets, guarded_values, returns, all_nodes, callee, strip_shape, calls_in, guards_of, stmt_of, kw, find_assignments, compare_nf,
                      dict_literal_items, in_loop)
 
 EXPLANATION = (
@@ -212,8 +212,9 @@ def rule_flush(ck):
             apps = [x for st in body for x in ast.walk(st) if isinstance(x, ast.Call) and isinstance(x.func, ast.Attribute) and x.func.attr == 'append' and u(x.func.value) == 'events']
             good = len(apps) == 1 and u(apps[0].args[0]) == 'temp_event'
             if good:
-                g = guards_of(apps[0], lp)
-                inner = [u(t2) for t2, pol in g if t2 is not t]
+                g = explicit_guards_of(apps[0], lp)
+                inner = [u(t2) for t2, pol in g if t2 is not t and any(x is apps[0] for b_ in body for x in ast.walk(b_)) and
+                         any(t2 is x for b_ in body for x in ast.walk(b_))]
                 good = len(inner) == 1 and 'temp_event' in inner[0] and "(None, '')" in inner[0] and inner[0].startswith('not all(')
             (o.ok('appends the event unless every field is empty') if good else o.fail('the same-catalog branch does not append the (non-placeholder) event to the pending list'))
     # final flush
@@ -388,11 +389,18 @@ def rule_columns(ck):
     (o.ok() if ok else o.fail('a row counts as a placeholder under another condition than "every field after the event id is empty" (%s): a '
                              'legitimate event (e.g. origin time 0 = 1970-01-01T00:00:00) would be dropped when it opens a catalog' %
                              '; '.join(u(a)[:60] for a in asg)))
-    # header skip only while prev_id is None
-    hdr = [n for n in all_nodes(f) if isinstance(n, ast.Call) and (callee(P, f, n) or '').endswith('is_header_line') and in_loop(n, f.node) is lp]
-    o = ck.ob('C12-D4.header', f, hdr[0] if hdr else 'header skip', hdr[0] if hdr else lp)
-    ok = len(hdr) == 1 and any(u(t) == 'prev_id is None' and pol for t, pol in guards_of(hdr[0], lp)) and \
-        any(isinstance(s, ast.Continue) for s in getattr(stmt_of(hdr[0]), 'body', []))
+    # header skip only while prev_id is None: a row may be passed over (continue before it is decoded) only before the first data
+    # row was seen; whatever recognises the header (a helper, an inlined comparison) is not the rule's business
+    decode = [n for n in all_nodes(f) if isinstance(n, ast.Assign) and any(isinstance(x, ast.Name) and x.id == 'temp_event' for t_ in n.targets for x in ast.walk(t_))
+              and in_loop(n, f.node) is lp]
+    first_decode = min((n.lineno for n in decode), default=None)
+    skips = [n for n in ast.walk(lp) if isinstance(n, ast.Continue) and in_loop(n, f.node) is lp and first_decode is not None and n.lineno < first_decode]
+    o = ck.ob('C12-D4.header', f, skips[0] if skips else 'header skip', skips[0] if skips else lp)
+    ok = bool(skips)
+    for sk in skips:
+        for conj in guard_dnf(sk, lp):
+            if ('prev_id is None', True) not in [(u(a_), p_) for a_, p_ in conj]:
+                ok = False
     (o.ok('only before the first data row') if ok else o.fail('the header line is not skipped exactly while prev_id is None'))
 
 
